@@ -16,19 +16,32 @@ and every later section (props/C05.py compares section by section and accepts `U
 namespace Ecal.Drv.C05
 open Ecal.Drv Ecal.Drv.EvalCommon Ecal.Ev
 
-/-- the sections of a case; a section may carry alternatives `<chained> [~ <as is>] ~ <spec>` (calls of a call
-    result, known finding call-result-not-callable, see c05Chains in c05.go): `pick` chooses which one the model runs —
-    `asIs = true`: the code as it is (the program with the dropped calls removed; the spec program when nothing is
-    dropped), `false`: the let-desugared meaning -/
-def splitSections (asIs : Bool) (p : String) : List String :=
-  (p.splitOn " @ ").map fun sec => match sec.splitOn " ~ " with
-    | [_, a, s] => if asIs then a else s
-    | [_, s] => s
-    | _ => sec
+/-- A section may carry alternatives separated by ` ~ ` (known findings: the code is known to deviate from the
+    property there; see c05Chains / c05BlockShare / the parameter family in c05.go), optionally ending in `#<kf id>`:
+      `<go> ~ <model>`                 the model runs the second program (same meaning, no finding)
+      `<go> ~ <as is> ~ <spec>`        the code as it is / what the property demands (id call-result-not-callable)
+      `<go> ~ <spec> ~ #<id>`          as is = the go program itself
+      `<go> ~ <as is> ~ <spec> ~ #<id>`
+    `parseAlt` gives (as-is program, spec program if any, id). -/
+def parseAlt (sec : String) : String × Option String × String :=
+  let parts := sec.splitOn " ~ "
+  let (parts, id) := match parts.getLast? with
+    | some l => if l.startsWith "#" then (parts.dropLast, (l.drop 1).toString) else (parts, "call-result-not-callable")
+    | none => (parts, "call-result-not-callable")
+  let explicitId := match (sec.splitOn " ~ ").getLast? with | some l => l.startsWith "#" | none => false
+  match parts with
+  | [g, s] => if explicitId then (g, some s, id) else (s, none, id)
+  | [_, a, s] => (a, some s, id)
+  | _ => (sec, none, id)
 
-/-- the case has an "as is" program: the code is known to deviate from the spec there -/
-def hasKnownDeviation (p : String) : Bool :=
-  (p.splitOn " @ ").any fun sec => (sec.splitOn " ~ ").length == 3
+def splitSections (asIs : Bool) (p : String) : List String :=
+  (p.splitOn " @ ").map fun sec =>
+    let (a, s, _) := parseAlt sec
+    if asIs then a else s.getD a
+
+/-- the known-finding class of the case, if one of its sections has a spec alternative -/
+def knownDeviation (p : String) : Option String :=
+  ((p.splitOn " @ ").filterMap fun sec => let (_, s, id) := parseAlt sec; s.map fun _ => id).head?
 
 def errText : Sig → String
   | .err e _ => s!"ERR {hexEnc (strBytes e.type)}"
@@ -49,8 +62,12 @@ def runSection (g : Nat) (prog : Program) : M String := do
       | .ok v => do pure ("OK " ++ canonVal (← get) canonDepth v)
       | .error e => if e.isFatal then throw e else pure (errText e)
 
+/-- the helper functions d1 … d9 of spec programs (lexical defaults, see the parameter family in c05.go) are not part of
+    the program under test -/
+def isSpecHelper (k : String) : Bool := k.length == 2 && k.startsWith "d" && (k.drop 1).all Char.isDigit
+
 def globalDump (st : St) (g : Nat) : String :=
-  let items := ((st.scopes.getD g default).vars.map fun (k, v) =>
+  let items := (((st.scopes.getD g default).vars.filter fun kv => !(isSpecHelper kv.1)).map fun (k, v) =>
     canonVal st (canonDepth - 1) (.str (strBytes k)) ++ ":" ++ canonVal st (canonDepth - 1) v)
   " ".intercalate (items.toArray.qsort (· < ·)).toList
 
@@ -60,15 +77,33 @@ def canonErrObjects (t : String) : String :=
   ((((t.replace "s6572726f72:?error text" "s6572726f72:~E").replace "s64657461696c:?detail text" "s64657461696c:~D").replace
     "s736f75726365:?source name" "s736f75726365:~S").replace "s7472616365:?trace" "s7472616365:~T").replace "?int" "~I"
 
-/-- the call frames of the state in creation order (linked ones: a frame whose construction failed stays
-    parentless and is not reported by the code either): scope name, name of the scope it is linked to, and the names
-    it holds IN INSERTION ORDER — `this`, `super`, the parameters come first (`frame_contents`), locals of the body
-    after them; props/C05.py compares the names the real frame held when the body started with that prefix -/
-def framesText (st : St) : String :=
-  let frames := st.scopes.toList.filter fun s => s.name.startsWith "func: " && s.parent.isSome
-  "|".intercalate (frames.map fun s =>
-    let pn := match s.parent with | some p => (st.scopes.getD p default).name | none => ""
-    hexEnc (strBytes s.name) ++ ">" ++ hexEnc (strBytes pn) ++ "[" ++ ",".intercalate (s.vars.map fun kv => hexEnc (strBytes kv.1)) ++ "]")
+/-- is scope `i` a linked call frame (created by `buildFrame`: a scope that is no child of its parent) -/
+def isFrame (st : St) (i : Nat) : Bool :=
+  let s := st.scopes.getD i default
+  match s.parent with
+  | some p => !((st.scopes.getD p default).children.contains i)
+  | none => false
+
+/-- the kinds of the scopes from `i` up to the first call frame or root: b = block scope, f = call frame,
+    g = the global scope, r = another root (the same description c05ScopeChain gives on the Go side) -/
+def scopeChain (st : St) (g : Nat) : Nat → Nat → List String
+  | 0, _ => ["?"]
+  | fuel+1, i =>
+    if isFrame st i then ["f"]
+    else match (st.scopes.getD i default).parent with
+      | none => [if i == g then "g" else "r"]
+      | some p => "b" :: scopeChain st g fuel p
+
+/-- the call frames of the state, structurally: what the frame is linked to (`scopeChain`) and the names it holds IN
+    INSERTION ORDER — `this`, `super`, the parameters come first (`frame_contents`), locals of the body after them;
+    props/C05.py matches every frame the real code reports (names held when the body starts, sorted) with a distinct
+    frame of this list that has the same link and those names as its first ones -/
+def framesText (st : St) (g : Nat) : String :=
+  let idx := (List.range st.scopes.size).filter (isFrame st)
+  "|".intercalate (idx.map fun i =>
+    let s := st.scopes.getD i default
+    let chain := match s.parent with | some p => scopeChain st g 50 p | none => ["?"]
+    ".".intercalate chain ++ "[" ++ ",".intercalate (s.vars.map fun kv => hexEnc (strBytes kv.1)) ++ "]")
 
 def logFrom (st : St) (i : Nat) : String := "|".intercalate (st.log.toList.drop i)
 
@@ -106,7 +141,7 @@ def runSections (secs : List String) : String :=
       let g ← newScope "GlobalScope"
       let p0 ← runSection g prog
       let st0 ← get
-      let head := [p0, "G " ++ globalDump st0 g, "LOG " ++ logText st0, "F " ++ framesText st0]
+      let head := [p0, "G " ++ globalDump st0 g, "LOG " ++ logText st0, "F " ++ framesText st0 g]
       let (ps, ok) ← runProbes g probes
       let st1 ← get
       pure (head ++ ps ++ [if ok then "G " ++ globalDump st1 g else "U"], st0.log.size ≥ 1)
@@ -122,10 +157,15 @@ def runSections (secs : List String) : String :=
 
 def runCase (payload : String) : String :=
   let main := runSections (splitSections true payload)
-  if hasKnownDeviation payload then
+  match knownDeviation payload with
+  | some id =>
     let spec := ((runSections (splitSections false payload)).splitOn "\t").headD ""
-    main ++ "\tkf=call-result-not-callable\tspec=" ++ spec
-  else main
+    -- only where the code as it is really differs from what the property demands (the call frames of the spec
+    -- program — it has helper functions — are not part of that question)
+    let sem (t : String) : List String := (t.splitOn ";").filter fun sec => !(sec.startsWith "F ")
+    if sem ((main.splitOn "\t").headD "") == sem spec then main
+    else main ++ "\tkf=" ++ id ++ "\tspec=" ++ spec
+  | none => main
 
 def run (_args : List String) : IO Unit := lineLoop runCase
 end Ecal.Drv.C05
